@@ -5,7 +5,8 @@ cd "$(dirname "$0")"
 export PYTHONPATH=/repo PYTHONHASHSEED=0 PYTHONDONTWRITEBYTECODE=1
 /venv/bin/python -W ignore - <<'PY'
 import sys
-sys.path.insert(0, "/verif")
+import os
+sys.path.insert(0, os.getcwd())
 from harness.common import Ctx, ensure_makefile, Lock
 from translate import GENERATORS
 c = Ctx("setup", "quick", 0)
